@@ -40,6 +40,8 @@ type c06Scenario struct {
 
 	// faults armed before Connect (0 = none): the k-th read / write fails
 	ReadErrAt  int `json:"read_err_at"`
+	// ReadErrKind: which error a failing read reports (ircsim.ReadError): plain, timed out, reset, unexpected EOF
+	ReadErrKind int `json:"read_err_kind,omitempty"`
 	WriteErrAt int `json:"write_err_at"`
 
 	// endings released together at the end of the session
@@ -85,6 +87,7 @@ func genC06(t *rapid.T) *c06Scenario {
 	if rapid.IntRange(0, 5).Draw(t, "armed_write") == 0 {
 		sc.WriteErrAt = rapid.IntRange(1, 8).Draw(t, "write_err_at")
 	}
+	sc.ReadErrKind = rapid.IntRange(0, 3).Draw(t, "read_err_kind")
 	kinds := []string{"close", "eof", "readerr", "writeerr"}
 	if sc.UseCtx {
 		kinds = append(kinds, "cancel")
@@ -247,7 +250,7 @@ func runC06(sc *c06Scenario) *Violation {
 		armed := sc.ReadErrAt > 0 || sc.WriteErrAt > 0
 		tc.S.Prepare(func(c *ircsim.Conn) {
 			if sc.ReadErrAt > 0 {
-				c.FailReadAt(sc.ReadErrAt)
+				c.FailReadAtWith(sc.ReadErrAt, ircsim.ReadError(sc.ReadErrKind))
 			}
 			if sc.WriteErrAt > 0 {
 				c.FailWriteAt(sc.WriteErrAt)
@@ -361,7 +364,7 @@ func runC06(sc *c06Scenario) *Violation {
 			case "eof":
 				fire(y, func() { conn.EOFNow() })
 			case "readerr":
-				fire(y, func() { conn.FailRead(errors.New("injected read error"), true) })
+				fire(y, func() { conn.FailRead(ircsim.ReadError(sc.ReadErrKind), true) })
 			case "writeerr":
 				fire(y, func() { conn.FailWrites(errors.New("injected write error")); conn.SendLine("PING :trigger") })
 			case "cancel":
@@ -451,6 +454,12 @@ func (sc *c06Scenario) classes() (cls []string, nontrivial bool) {
 	}
 	if sc.ReadErrAt > 0 {
 		cls = append(cls, "armed_read_error")
+	}
+	for _, e := range sc.Endings {
+		if e == "readerr" || sc.ReadErrAt > 0 {
+			cls = append(cls, fmt.Sprintf("read_error_kind=%d", sc.ReadErrKind%4))
+			break
+		}
 	}
 	if sc.WriteErrAt > 0 {
 		cls = append(cls, "armed_write_error")
